@@ -7,7 +7,11 @@ From Cose Require Import Lib.Base Lib.Cbor Model.GoVal Model.CborGo Model.CborCo
 Import ListNotations.
 Open Scope Z_scope.
 
-Definition fp (k : fkey) : prims := {| pr_sig := fake_sig k; pr_mac := fake_mac k; pr_enc := fake_enc k |}.
+Definition fp (k : fkey) : prims := {| pr_sig := fake_sig k; pr_mac := fake_mac k; pr_enc := fake_enc k; pr_sigs := [fake_sig k] |}.
+(* COSE_Sign: several signers / verifiers (the single-key members are those of the first key, unused there) *)
+Definition fps (ks : list fkey) : prims :=
+  let k0 := match ks with k :: _ => k | [] => {| fk_map := []; fk_secret := []; fk_nsize := 0; fk_fail := true |} end in
+  {| pr_sig := fake_sig k0; pr_mac := fake_mac k0; pr_enc := fake_enc k0; pr_sigs := map fake_sig ks |}.
 
 Definition out_eqb (a b : out) : bool :=
   match a, b with
@@ -16,13 +20,23 @@ Definition out_eqb (a b : out) : bool :=
   | _, _ => false
   end.
 
-Definition snap_eqb (a b : snap) : bool :=
-  let '(p1, u1, b1, r1) := a in let '(p2, u2, b2, r2) := b in
-  omap_eq p1 p2 && omap_eq u1 u2 && obytes_eq b1 b2 && list_eqb recip_eq r1 r2.
+(* what the harness reads off the object: the exported fields, Recipients() and Signatures() *)
+Definition csnap := (option cosemap * option cosemap * option bytes * list recip * option (list (cosemap * option cosemap * option bytes)))%type.
 
-Inductive obj_case := OCase (k : kind) (ops : list op) (trace : list (out * snap)).
+Definition osigs_match (a : option (list sigent)) (b : option (list (cosemap * option cosemap * option bytes))) : bool :=
+  match a, b with
+  | None, None => true
+  | Some x, Some y => list_eqb sig_matches x y
+  | _, _ => false
+  end.
 
-Fixpoint trace_eqb (a b : list (out * snap)) : bool :=
+Definition snap_eqb (a : snap) (b : csnap) : bool :=
+  let '(p1, u1, b1, r1, s1) := a in let '(p2, u2, b2, r2, s2) := b in
+  omap_eq p1 p2 && omap_eq u1 u2 && obytes_eq b1 b2 && list_eqb recip_eq r1 r2 && osigs_match s1 s2.
+
+Inductive obj_case := OCase (k : kind) (ops : list op) (trace : list (out * csnap)).
+
+Fixpoint trace_eqb (a : list (out * snap)) (b : list (out * csnap)) : bool :=
   match a, b with
   | [], [] => true
   | (x, s) :: r, (y, t) :: q => out_eqb x y && snap_eqb s t && trace_eqb r q
